@@ -158,15 +158,12 @@ def run(ctx, prog):
                 if tr.too_many_paths:
                     raise AnalysisBroken('%s: path limit reached' % key)
     ctx.floor('evaluator_overrides_analysed', n_eval, 2 * 225)
-    # ---- P5
-    mm = {}
-    for scalar in cat.SCALARS:
-        fs = [f for f in prog.functions if f.n == 'masa_master' and f.q.endswith('masa_master<%s>' % scalar)]
-        ctx.require(len(fs) == 1, 'masa_master<%s> not found' % scalar)
-        st = flat_stmts(fs[0].body)
-        g = strip(st[0]['e'], casts=True) if len(st) == 1 and st[0].get('k') == 'return' else {}
-        mm[scalar] = (g.get('q'), g.get('t'), fs[0])
-    ok = all(v[0] for v in mm.values()) and mm['double'][0] != mm['long double'][0] and \
-        'MasterMS<double>' in str(mm['double'][1]) and 'MasterMS<long double>' in str(mm['long double'][1])
-    ctx.ob('C10.P5', 'distinct-registries', ok, mm['double'][2].where, 'masa_master<double>/<long double> return %s / %s' % (mm['double'][0], mm['long double'][0]),
-           sample='%s vs %s' % (mm['double'][0], mm['long double'][0]))
+    # ---- P5: the accessors evaluated (helpers / tag dispatch inlined) return two different global objects of the right types
+    from .. import api
+    regs = api.registry_globals(prog)
+    gq = {sc_: r[len('global:'):] for sc_, r in regs.items()}
+    tys = {sc_: str(prog.vars.get(gq[sc_], {}).get('t', '')) for sc_ in gq}
+    ok = gq['double'] != gq['long double'] and 'MasterMS<double>' in tys['double'] and 'MasterMS<long double>' in tys['long double']
+    fs = [f for f in prog.functions if f.n == 'masa_master']
+    ctx.ob('C10.P5', 'distinct-registries', ok, fs[0].where if fs else '', 'masa_master<double>/<long double> return %s (%s) / %s (%s)' % (
+        gq['double'], tys['double'], gq['long double'], tys['long double']), sample='%s vs %s' % (gq['double'], gq['long double']))
